@@ -100,6 +100,26 @@ def cls_ugm(verdict, case):
     return out
 
 
+def cls_c12(verdict, case):
+    """recovery driver: tagged clauses "C12.<id> ..." (acceptance of replayed items, books of the restarted core, totals
+    against the snapshot, old core against new core, "C12.after-<Cxx>.<clause>" for the scheduling that follows) and
+    "diff recover.<what>" / "diff core.<op>" (model vs implementation), joined by " ;; "; a recovered panic is prefixed
+    by the dispatcher"""
+    body = verdict[4:] if verdict.startswith("inv ") else verdict
+    out = []
+    for part in body.split(" ;; "):
+        w = part.split()
+        if not w:
+            continue
+        if w[0] == "diff":
+            out.append("diff-" + w[1] + ("-" + w[2] if len(w) > 2 and w[1].startswith("core.") else ""))
+        elif w[0] in ("panic", "hang"):
+            out.append(w[0] + "-" + "-".join(x.strip('"') for x in w[1:2]))
+        elif w[0].startswith("C12."):
+            out.append(w[0])
+    return out or [cls_default(verdict, case)]
+
+
 # a difference between the stepped Core model and the implementation is reported by the properties whose theorems are
 # about that model
 # a difference between the stepped Core model and the implementation is reported by the properties whose theorems are
@@ -480,6 +500,37 @@ PROPS = {
         level_note="trusted: Lean kernel; hand-written validator model tied by correspondence and by T5 for the literals; YAML decoding; regexp compilation as an input bit; load side modelled at its failure points only",
         technique="Lean 4 proof (structural induction over configuration trees) + differential correspondence on the real validator and loader",
         design_ref="DESIGN.md section 4 C15",
+    ),
+    "C12": dict(
+        module="YkProps.C12",
+        leancheck=["YkModel.CoreState", "YkModel.CoreOps", "YkModel.Recover", "YkProofs.Core", "YkProofs.Recover", "YkProps.C12"],
+        runs=[dict(comp="recover", quick=500, thorough=10000)],
+        classify=cls_c12,
+        nontrivial=lambda line: '"op":"reset"' in line and '"kind":"alloc"' in line,
+        rule="recover: a generated full-stack history (general / gang / preemption generators of the core component, 4..113 operations or to its end; half of the histories also stop with probability 0.35 "
+             "right after the core announced a release that needs the shim's confirmation: placeholder replacement in flight, placeholder timeout, preemption) runs on a real ClusterContext A. A recorder keeps what the SHIM knows, built only from "
+             "the requests it sent and the messages the core sent: registered nodes with latest capacity and drain state, accepted and not removed applications with their submission, allocations announced by the core or placed by the shim and not released, "
+             "foreign allocations, outstanding asks, releases announced but not confirmed. A is stopped; the book is replayed on a FRESH ClusterContext B in one of four orders (k8shim: nodes, applications, allocations, foreign, asks; "
+             "per application; random order respecting node/application before allocation; 6%: any order), force-create on all applications or only on those with a bound allocation, nodes registered directly or draining and enabled afterwards, "
+             "pods under deletion replayed or already gone, with B's configuration = A's (45%), tighter quotas on every queue plus a wildcard user limit, a queue subtree removed with and without queue creation by the rules, fair-sorted leaves. "
+             "One line carries the dump of A, B's queue tree before the replay, every replayed item with B's answer and the application's placement, and the dump of B; 4..11 operations on B follow (scheduling cycles, new asks, releases, confirmations). "
+             "The driver replays the items on the model and compares answers and all ledgers with B, evaluates acceptance, B's books, B's totals against the accepted items and A against B object by object, and the capacity/quota/accounting clauses of the full-stack driver on the operations that follow. "
+             "non-trivial = a recovery line that replays at least one bound allocation; distinct = distinct protocol lines",
+        trusted=["one partition, one goroutine; the harness calls the handler functions of ClusterContext directly; core A is stopped (ClusterContext.Stop) before core B is created in the same process (the user/group manager is a process-wide singleton and is cleared, as a restart does)",
+                 "the shim is the simulated shim of the full-stack harness: it does not react to application state updates (a real shim deletes placeholder pods of a Resuming application); its book is the source of the replay",
+                 "placement and queue creation of the restarted core are taken from the implementation (the queue each application landed in; C17 owns placement): the model starts from B's queue tree",
+                 "exact integer arithmetic (no quantity saturates)"],
+        assumptions=["allocation keys are unique across applications and foreign pods (pod UIDs); node and application ids are unique",
+                     "replay order: a node before the allocations / foreign pods on it, an application before its allocations and asks (what the k8shim guarantees: nodes are registered and accepted first, a task is only sent once its application was accepted); other orders are run too and must be refused consistently by model and implementation",
+                     "A against B is compared where the shim held exactly what A held (no pod already gone, nothing rejected because the order was illegal or the application was not forced) and A's own books are balanced"],
+        level_text="Lean 4 proofs over the replay model (nodes, applications after placement, the 'new allocation already assigned' branch of UpdateAllocation, foreign allocations, asks — built from the CoreOps operations) for ALL queue trees, snapshots and replay orders: "
+                   "the rebuilt state has balanced books (application = sum of its items, queue = sum of the applications at or below it, node ledger); every per-application and per-node total of the rebuilt state is the total recomputed from the accepted items and does not depend on the order; "
+                   "a replay whose item list satisfies the order condition alone (every id / key used once, a node before the allocations and foreign pods on it, an application before its allocations and asks, positive resources, applications placed in a leaf, force-created or without task-group request) is accepted completely whatever the queue maxima, node capacities or user limits are (no such quantity occurs in the hypotheses); "
+                   "and therefore an old core with balanced books (C03) and the restarted core agree on every per-application, per-queue and (given the node view I7/I8 of C03) per-node allocated and pending total, up to placeholder replacements in flight, which are stated exactly (old pending + in flight = new pending; old node allocated = new + in flight). A force-created application with a new id whose queue exists as a leaf is accepted whatever its task-group request, the queue maxima and the sort policy are (full strength since fix 70f7a44; the former refutation witnesses are regression examples and corpus inputs). "
+                   "Tie: two-execution differential correspondence of the replay model against a real restarted ClusterContext plus the same clauses evaluated on the implementation's dumps.",
+        level_note="trusted: Lean kernel; hand-written replay model tied by correspondence only; placement taken from the implementation; simulated shim; exact arithmetic; single partition, single goroutine; user trackers are checked by monitors (usage = sum of the user's applications), not stepped by the model",
+        technique="Lean 4 invariant proof over a replay model (induction over the replayed items, order independence) + two-execution differential correspondence on real ClusterContexts",
+        design_ref="DESIGN.md section 4 C12",
     ),
 }
 
